@@ -25,6 +25,7 @@ type tagBackend struct {
 	conns   []net.Conn
 	pace    time.Duration // pause between the backend's writes
 	piece   int           // bytes per write (0: 1000)
+	eofs    int           // connections that saw the end of their stream
 }
 
 func newTagBackend(sends []byte) *tagBackend {
@@ -67,6 +68,7 @@ func newTagBackend(sends []byte) *tagBackend {
 					b.got = append(b.got, buf[:n]...)
 					if err != nil {
 						b.eof = true
+						b.eofs++
 					}
 					b.mu.Unlock()
 					if err != nil {
@@ -83,6 +85,13 @@ func (b *tagBackend) snapshot() (int, []byte, bool) {
 	b.mu.Lock()
 	defer b.mu.Unlock()
 	return b.accepts, append([]byte(nil), b.got...), b.eof
+}
+
+// allReleased: every accepted connection has seen EOF.
+func (b *tagBackend) allReleased() bool {
+	b.mu.Lock()
+	defer b.mu.Unlock()
+	return b.eofs >= b.accepts
 }
 
 func (b *tagBackend) close() {
